@@ -23,6 +23,7 @@ fn main() {
         }
         let c = parse_case(&line);
         reset();
+        let _ = take_effin();
         RED_THREADS.lock().unwrap_or_else(|e| e.into_inner()).clear();
         *g().panic_at.lock().unwrap_or_else(|e| e.into_inner()) = c.panic_at;
         let hdr = std::cell::RefCell::new(String::from("params=? kind=?"));
@@ -47,6 +48,6 @@ fn main() {
             Ok(r) => r,
             Err(_) => "P".to_string(),
         };
-        writeln!(out, "id={} res={} {} {} sched_exhausted={} picks_used={}", c.id, res, hdr.borrow(), observations(), exhausted as u8, used).unwrap();
+        writeln!(out, "id={} res={} {} {} sched_exhausted={} picks_used={}{}", c.id, res, hdr.borrow(), observations(), exhausted as u8, used, take_effin()).unwrap();
     }
 }
